@@ -47,6 +47,35 @@ let key_of (s : string) : keyk =
 
 let b2s b = if b then "ok 1" else "ok 0"
 
+(* LP cases: a file is a comma list of blocks LABEL/content/ref *)
+let label_of (s : string) : plabel =
+  if s = "CERTIFICATE" then LCert
+  else if s = "PRIVATE_KEY" then LPrivKey
+  else if String.length s > 12 && String.sub s (String.length s - 12) 12 = "_PRIVATE_KEY" then LSuffixPrivKey
+  else LOtherLabel
+
+let content_of (s : string) : pcontent =
+  let kv = match String.index_opt s '=' with
+    | Some i -> (String.sub s 0 i, String.sub s (i + 1) (String.length s - i - 1))
+    | None -> (s, "") in
+  match kv with
+  | ("cert", d) -> PCert (cert_of d)
+  | ("p1rsa", n) -> PPkcs1Rsa (z_of_str n)
+  | ("p8rsa", n) -> PPkcs8Rsa (z_of_str n)
+  | ("p8ec", d) -> (match String.split_on_char ':' d with
+                    | [cu; x; y] -> PPkcs8Ecdsa (nat_of_int (int_of_string cu), z_of_str x, z_of_str y) | _ -> PJunk)
+  | ("p8sm2", d) -> (match String.split_on_char ':' d with [x; y] -> PPkcs8Sm2 (z_of_str x, z_of_str y) | _ -> PJunk)
+  | ("p8other", _) -> PPkcs8Other
+  | ("sec1", _) -> PSec1
+  | ("enc", _) -> PEncrypted
+  | _ -> PJunk
+
+let pemfile_of (s : string) : (plabel * pcontent) list =
+  if s = "-" then [] else
+  List.map (fun b -> match String.split_on_char '/' b with
+    | l :: c :: _ -> (label_of l, content_of c)
+    | _ -> (LOtherLabel, PJunk)) (String.split_on_char ',' s)
+
 let handle (f : string array) : string =
   match f.(0) with
   | "HP" ->
@@ -99,6 +128,12 @@ let handle (f : string array) : string =
      | "X509KeyPair" | "LoadX509KeyPair" -> b2s (x509KeyPair c1 k1)
      | "GMX509KeyPairsSingle" | "LoadGMX509KeyPair" -> b2s (gMX509KeyPairsSingle c1 k1)
      | "GMX509KeyPairs" | "LoadGMX509KeyPairs" -> b2s (gMX509KeyPairs c1 k1 (cert_of f.(9)) (key_of f.(10)))
+     | _ -> "BADCASE")
+  | "LP" ->
+    (match f.(2) with
+     | "X509KeyPair" -> b2s (x509KeyPair_pem (pemfile_of f.(3)) (pemfile_of f.(4)))
+     | "GMX509KeyPairsSingle" -> b2s (gMX509KeyPairsSingle_pem (pemfile_of f.(3)) (pemfile_of f.(4)))
+     | "GMX509KeyPairs" -> b2s (gMX509KeyPairs_pem (pemfile_of f.(3)) (pemfile_of f.(4)) (pemfile_of f.(5)) (pemfile_of f.(6)))
      | _ -> "BADCASE")
   | _ -> "BADCASE"
 
